@@ -34,6 +34,11 @@ CRYSTALS = {
     "P31": (["Si"] * 3, [[4.0, 0, 0], [-2.0, 4.0 * np.sqrt(3) / 2, 0], [0, 0, 6.0]], [[0.2, 0.1, 0.1], [-0.1, 0.1, 0.1 + 1.0 / 3], [-0.1, -0.2, 0.1 + 2.0 / 3]]),
     "rutile-like": (["Ti", "Ti", "O", "O", "O", "O"], [[4.6, 0, 0], [0, 4.6, 0], [0, 0, 2.95]],
                     [[0, 0, 0], [0.5, 0.5, 0.5], [0.3, 0.3, 0], [0.7, 0.7, 0], [0.2, 0.8, 0.5], [0.8, 0.2, 0.5]]),
+    # two orbits under the 3-fold axis: after the acoustic sum rule the tensors stay non-symmetric (with one orbit they come out symmetric,
+    # which hides a transposed tensor); and a P1 cell (every atom independent, tensors general)
+    "P3-two-orbits": (["Si"] * 3 + ["O"] * 3, [[4.0, 0, 0], [-2.0, 4.0 * np.sqrt(3) / 2, 0], [0, 0, 5.0]],
+                      [[0.2, 0.1, 0.3], [-0.1, 0.1, 0.3], [-0.1, -0.2, 0.3], [0.45, 0.15, 0.71], [-0.15, 0.30, 0.71], [-0.30, -0.45, 0.71]]),
+    "P1": (["Na", "Cl", "O"], [[4.0, 0.1, 0.0], [0.0, 4.2, 0.2], [0.3, 0.0, 3.9]], [[0.02, 0.01, 0.03], [0.47, 0.55, 0.52], [0.21, 0.77, 0.34]]),
     "nacl": (["Na", "Cl"], [[0, 2.8, 2.8], [2.8, 0, 2.8], [2.8, 2.8, 0]], [[0, 0, 0], [0.5, 0.5, 0.5]]),
 }
 
@@ -313,7 +318,11 @@ def files_unit(u, res):
         F = rng.uniform(-1, 1, (n, n, 3, 3))
         p2s = np.array(ph.primitive.p2s_map, dtype="intc")
         Fc = np.array(F[p2s], order="C")
-        for label, arr, m in (("full", F, None), ("compact", Fc, p2s), ("full, p2s_map given", F, p2s)):
+        p2s_g = np.array(geometries.phonopy_obj("nacl8", "111").primitive.p2s_map, dtype="intc")       # grouped species: [0, 4], not 0..n_p-1
+        if list(p2s_g) == list(range(len(p2s_g))):
+            raise HarnessError("geometry nacl8 no longer separates primitive indices from supercell indices")
+        Fg = np.array(F[p2s_g], order="C")
+        for label, arr, m in (("full", F, None), ("compact", Fc, p2s), ("full, p2s_map given", F, p2s), ("compact, primitive atoms not the first supercell atoms", Fg, p2s_g)):
             file_IO.write_FORCE_CONSTANTS(arr, filename="FC_txt", p2s_map=m)
             try:
                 back = file_IO.parse_FORCE_CONSTANTS(filename="FC_txt", p2s_map=m)
@@ -342,7 +351,7 @@ def files_unit(u, res):
         # --- BORN: rutile-like (4 O atoms related by symmetry, anisotropic tensors) and the F-centred rock salt given as interleaved unit cell
         from phonopy.structure.atoms import PhonopyAtoms
         from phonopy.structure.symmetry import symmetrize_borns_and_epsilon
-        for cname in ("rutile-like", "P3"):
+        for cname in ("rutile-like", "P3", "P3-two-orbits", "P1"):
             sym_, lat_, pos_ = CRYSTALS[cname]
             cell = PhonopyAtoms(symbols=sym_, cell=np.array(lat_, dtype=float), scaled_positions=np.array(pos_, dtype=float))
             php = phonopy.Phonopy(cell, supercell_matrix=np.eye(3, dtype=int), primitive_matrix=None, log_level=0)
